@@ -212,9 +212,11 @@ Example C10_nonvacuous_order :
   = (true, true, true, true).
 Proof. vm_compute. reflexivity. Qed.
 
-(* the literals of the source this development was proved against *)
+(* the literals of cleanup.go this development was proved against (the LAT resolution of
+   file_map.go and the default capacity of config.go are also extracted, but the model simply
+   follows them: no statement depends on their values) *)
 Example C10_constants :
   (cleanup_consumer_gap_ns, cleanup_agent_gap_ns, cleanup_default_interval_ns, cleanup_default_tti_ns,
-   cleanup_default_aggressive_ttl_ns, cleanup_ttl_guard, filemap_lat_resolution_ns, castore_default_capacity)
-  = (1000000000, 2700000000000, 1800000000000, 21600000000000, 3600000000000, 0, 300000000000, 1048576).
+   cleanup_default_aggressive_ttl_ns, cleanup_ttl_guard)
+  = (1000000000, 2700000000000, 1800000000000, 21600000000000, 3600000000000, 0).
 Proof. vm_compute. reflexivity. Qed.
